@@ -27,8 +27,8 @@ CHECKS = {
    note="partial by nature: panics and stack exhaustion are runtime events inside unmodelled code (parser combinators, type checker, printer, third-party crates); one listed known finding (exponential parse time in nesting depth)",
    technique="Coq totality theorems for the modelled stages + crash-stream exploration of the real pipeline"),
  "C09": dict(category="proof",
-   text="Coq theorems: the table of which fields of every Expression/Statement variant hold sub-expressions and which of them the AST walker descends into is regenerated from src/ast/mod.rs and src/ast/walk.rs on every run and proved complete (finite obligation), hence the path-rewriting walker visits every node of every AST (generic rose-tree theorem); path normalisation is idempotent, identifies exactly the spellings that denote the same file, and joining a relative import to the importing file's directory yields the file that path denotes from there. The import cache/stack state machine (once per build, cycles are errors) is modelled separately. Tied to the real binary: one project per syntactic position of an import (incl. callbacks, fail message, module body/out expression/parameter default) and seeded project trees with DAGs and cycles, paths spelled with ./ ../ and redundant segments, each built from up to five working directories; totals, per-file evaluation counts (TRACE marker) and cycle diagnostics are checked",
-   note="symlinks, case-insensitive file systems and cwd changes are outside the model; the import state-machine theorems are delivered separately (env/Import.v)",
+   text="Coq theorems: the table of which fields of every Expression/Statement variant hold sub-expressions and which of them the AST walker descends into is regenerated from src/ast/mod.rs and src/ast/walk.rs on every run and proved complete (finite obligation), hence the path-rewriting walker visits every node of every AST (generic rose-tree theorem); path normalisation is idempotent, identifies exactly the spellings that denote the same file, and joining a relative import to the importing file's directory yields the file that path denotes from there. The import hook with its value cache, import stack and static cycle check is a Coq state machine (env/Import.v): building a file evaluates every file it reaches at most once, every importer sees the same value whatever the spelling and the moment, a cycle is reported as an error with nothing evaluated or written, builds terminate (fuel is never the outcome), acyclic projects build to the value the files denote; the machine is run (extracted) against the binary on every invocation of the C16 projects (status, evaluation sequence, artifacts). Tied to the real binary: one project per syntactic position of an import (incl. callbacks, fail message, module body/out expression/parameter default) and seeded project trees with DAGs and cycles, paths spelled with ./ ../ and redundant segments, each built from up to five working directories; totals, per-file evaluation counts (TRACE marker) and cycle diagnostics are checked",
+   note="symlinks, case-insensitive file systems and cwd changes are outside the model; files are abstracted to their imports, out statements and failure",
    technique="Coq proof (generated walker table + rose-tree induction; path normalisation lemmas) + project-tree correspondence through the ucg binary"),
  "C10": dict(category="proof",
    text="Coq theorems on the definitional semantics: every existing binding keeps its value through any further statements (scope extension), a program is its prefix followed by the rest run in the prefix's scope (so prefix bindings are stable and a failing prefix fails the program), rebinding and binding a reserved word are errors, a function body's evaluation depends only on its closure and arguments; C01's compile-correctness theorems carry these to the compiled form. Tied to the implementation by running every statement-boundary prefix of generated programs, targeted scope scenarios (format `item`, parameter/outer name clashes, closures over later names, module bodies, callbacks) against the semantics, and every documented reserved word",
@@ -51,7 +51,7 @@ CHECKS = {
    note="the helpers that use import/mod.pkg (zip, slice, has_fields, the string helpers, schema.*) are outside the definitional semantics (imports answer Unsup) and stay test-only",
    technique="Coq proof for fold-shaped helpers over generated ASTs (in progress) + reference-function correspondence through the ucg binary"),
  "C16": dict(category="proof",
-   text="partial until the Coq obligations are integrated (then: Coq state machine of one invocation - one Environment with opcode cache, value cache and out locks threaded through the file list - proved to give every file the result of a fresh process, for every project, order and repetition, with a lemma refuting it for the per-invocation out lock of the original code). Tied to the real binary: generated projects of 2..6 files (entries with out statements in five formats, shared libraries, files both built and imported, files failing at parse/type-check/run time before or after their out statement, paths spelled differently, a file named twice) built alone, in every order up to 4 files and random orders beyond, in every 2-file sub-batch, each invocation run twice, and by `ucg build -r .`; per-file status, exit status and every artifact's bytes must equal the stand-alone builds",
+   text="Coq state machine of one invocation - one Environment with opcode cache, value cache, shape cache and out locks threaded through the file list - proved by simulation to give every file the status, value and artifacts of a fresh process, for every project (cyclic, missing, failing, two-out files included), every order, repetition and doubled file list, with a lemma refuting it for the per-invocation out lock of the original code. Tied to the real binary: the extracted machine is run on every invocation below (per-file status, exit status, evaluation sequence by TRACE markers, artifacts written) and generated projects of 2..6 files (entries with out statements in five formats, shared libraries, files both built and imported, files failing at parse/type-check/run time before or after their out statement, paths spelled differently, a file named twice) built alone, in every order up to 4 files and random orders beyond, in every 2-file sub-batch, each invocation run twice, and by `ucg build -r .`; per-file status, exit status and every artifact's bytes must equal the stand-alone builds",
    note="files are abstracted in the model to their imports, number of out statements and whether they fail; diagnostic text is not compared (not part of the property); concurrent modification of files is outside",
    technique="Coq proof (invariant over the fold of build_file through the shared Environment) + batch/stand-alone correspondence through the ucg binary"),
  "C17": dict(category="proof",
